@@ -13,7 +13,9 @@ HERE = os.path.dirname(os.path.abspath(__file__))
 VERIF = os.path.dirname(HERE)
 LEAN_DIR = os.path.join(VERIF, 'lean')
 REPO = os.environ.get('VERIF_REPO', '/repo')
-EVIDENCE_DIR = os.path.join(VERIF, 'evidence')
+# evidence/ describes /repo itself; a run against a scratch copy of the repository (VERIF_REPO=<worktree>, used to
+# evaluate seeded changes) writes its record next to the replays instead, so that it never replaces the committed one
+EVIDENCE_DIR = os.path.join(VERIF, 'evidence') if os.path.realpath(REPO) == '/repo' else os.path.join(VERIF, 'replays', 'evidence-of-scratch-repo')
 REPLAY_DIR = os.path.join(VERIF, 'replays')
 KNOWN_FINDINGS = os.path.join(VERIF, 'known_findings')   # one committed file per property
 
